@@ -11,7 +11,7 @@ echo "== demo on HEAD" >> "$log"
 git checkout -q -- . ; git clean -fdq -- lalrpop lalrpop-util lalrpop-test doc 2>/dev/null
 if ! git apply "$d/patch.diff" 2>>"$log"; then echo "CONFIRM $d: patch does not apply"; exit 1; fi
 echo "== test suite with patch" >> "$log"
-if [ "${2:-full}" = quick ]; then tcmd="cargo test -p lalrpop -p lalrpop-util --offline"; else tcmd="cargo test --workspace --no-fail-fast --offline"; fi
+if [ "${2:-full}" = quick ]; then tcmd="cargo test -p lalrpop -p lalrpop-util --offline"; else tcmd="cargo test --workspace --no-fail-fast --offline --lib --bins --tests"; fi
 ( CARGO_NET_OFFLINE=true $tcmd ) >> "$log" 2>&1; trc=$?
 npass=$(grep -E "^test result: ok" "$log" | sed -E 's/.*ok\. ([0-9]+) passed.*/\1/' | paste -sd+ | bc)
 echo "== demo with patch" >> "$log"
